@@ -207,6 +207,9 @@ impl SegmentCollector for AllScoresSeg {
 struct Built {
     index: Index,
     body: Field,
+    /// for the merged index: the source segments (document ids, deleted ones included) and the id of
+    /// the segment the merge produced (None: nothing was left alive)
+    merge: Option<(Vec<Vec<u64>>, Option<tantivy::index::SegmentId>)>,
 }
 
 fn doc_text(d: &Value, filler: &str) -> String {
@@ -222,7 +225,9 @@ fn doc_text(d: &Value, filler: &str) -> String {
     s
 }
 
-fn build_index(case: &Value, cuts: &[usize]) -> tantivy::Result<Built> {
+/// `merge`: positions (1-based) of the cuts whose segments are merged (`IndexWriter::merge(..).wait()`)
+/// after all commits and deletes.
+fn build_index(case: &Value, cuts: &[usize], merge: Option<&[usize]>) -> tantivy::Result<Built> {
     let mut sb = Schema::builder();
     let body = sb.add_text_field("body", TEXT);
     let id = sb.add_u64_field("id", INDEXED | FAST | STORED);
@@ -249,8 +254,33 @@ fn build_index(case: &Value, cuts: &[usize]) -> tantivy::Result<Built> {
         }
         w.commit()?;
     }
+    let mut merge_info = None;
+    if let Some(ms) = merge {
+        let mut ranges = vec![];
+        let mut start = 1u64;
+        for c in cuts {
+            ranges.push((start, start + *c as u64 - 1));
+            start += *c as u64;
+        }
+        let searcher = index.reader()?.searcher();
+        let mut seg_ids_to_merge = vec![];
+        let mut srcs: Vec<Vec<u64>> = vec![];
+        for sr in searcher.segment_readers() {
+            let ids = seg_ids(sr);
+            let first = ids[0];
+            if ms.iter().any(|k| ranges[*k - 1].0 <= first && first <= ranges[*k - 1].1) {
+                seg_ids_to_merge.push(sr.segment_id());
+                srcs.push(ids);
+            }
+        }
+        drop(searcher);
+        if !seg_ids_to_merge.is_empty() {
+            let meta = w.merge(&seg_ids_to_merge).wait()?;
+            merge_info = Some((srcs, meta.map(|m| m.id())));
+        }
+    }
     w.wait_merging_threads()?;
-    Ok(Built { index, body })
+    Ok(Built { index, body, merge: merge_info })
 }
 
 /// id (1-based position in the corpus) of every document of a segment, from the fast field
@@ -259,7 +289,7 @@ fn seg_ids(sr: &SegmentReader) -> Vec<u64> {
     (0..sr.max_doc()).map(|d| col.first(d).unwrap_or(0)).collect()
 }
 
-fn observe_index(searcher: &Searcher, body: Field, vocab: &[String]) -> Value {
+fn observe_index(searcher: &Searcher, body: Field, vocab: &[String], merged: Option<tantivy::index::SegmentId>) -> Value {
     let mut segs = vec![];
     for sr in searcher.segment_readers() {
         let ids = seg_ids(sr);
@@ -272,8 +302,12 @@ fn observe_index(searcher: &Searcher, body: Field, vocab: &[String]) -> Value {
         for w in vocab {
             df.insert(w.clone(), json!(inv.doc_freq(&Term::from_field_text(body, w)).expect("doc_freq")));
         }
-        segs.push(json!({"docs": ids, "dead": dead, "max_doc": sr.max_doc(), "num_docs": sr.num_docs(),
-            "T": inv.total_num_tokens(), "df": df, "fnids": fnids, "fns": fns}));
+        let mut seg = json!({"docs": ids, "dead": dead, "max_doc": sr.max_doc(), "num_docs": sr.num_docs(),
+            "T": inv.total_num_tokens(), "df": df, "fnids": fnids, "fns": fns});
+        if merged == Some(sr.segment_id()) {
+            seg["merged"] = json!(true);
+        }
+        segs.push(seg);
     }
     json!(segs)
 }
@@ -499,9 +533,18 @@ fn run_case(tracer: &Tracer, case: &Value, explain_mode: &str, avoid: &str) {
     tracer.emit(json!({"ev": "reset", "tag": case["tag"], "filler": case["filler"].as_str().unwrap_or("z"), "vocab": vocab,
         "docs": case["docs"], "cuts": cuts, "dels": case.get("dels").cloned().unwrap_or(json!([]))}));
     let built = std::panic::catch_unwind(std::panic::AssertUnwindSafe(|| -> Result<Vec<(String, Built)>, String> {
-        let multi = build_index(case, &cuts).map_err(|e| e.to_string())?;
-        let single = build_index(case, &[nd]).map_err(|e| e.to_string())?;
-        Ok(vec![("multi".to_string(), multi), ("single".to_string(), single)])
+        let multi = build_index(case, &cuts, None).map_err(|e| e.to_string())?;
+        let single = build_index(case, &[nd], None).map_err(|e| e.to_string())?;
+        let mut v = vec![("multi".to_string(), multi), ("single".to_string(), single)];
+        // the many-segment index once more, then some of its segments merged
+        if let Some(ms) = case["merge"].as_array() {
+            let ms: Vec<usize> = ms.iter().map(|x| x.as_u64().unwrap() as usize).collect();
+            let merged = build_index(case, &cuts, Some(&ms)).map_err(|e| format!("merge: {e}"))?;
+            if merged.merge.is_some() {
+                v.push(("merged".to_string(), merged));
+            }
+        }
+        Ok(v)
     }));
     let built = match built {
         Ok(Ok(b)) => b,
@@ -518,12 +561,21 @@ fn run_case(tracer: &Tracer, case: &Value, explain_mode: &str, avoid: &str) {
     for (name, b) in &built {
         let r = std::panic::catch_unwind(std::panic::AssertUnwindSafe(|| -> Result<(Searcher, Value), String> {
             let searcher = b.index.reader().map_err(|e| e.to_string())?.searcher();
-            let segs = observe_index(&searcher, b.body, &vocab);
-            Ok((searcher, segs))
+            let merged_id = b.merge.as_ref().and_then(|m| m.1);
+            let mut ev = json!({"ev": "index", "ix": name, "segs": observe_index(&searcher, b.body, &vocab, merged_id)});
+            if let Some((srcs, _)) = &b.merge {
+                // certificate: the sources in the order in which the merged segment holds their documents
+                let merged_docs: Vec<u64> = ev["segs"].as_array().unwrap().iter().find(|s| s.get("merged").is_some())
+                    .map(|s| s["docs"].as_array().unwrap().iter().map(|x| x.as_u64().unwrap()).collect()).unwrap_or_default();
+                let mut srcs = srcs.clone();
+                srcs.sort_by_key(|src| src.iter().filter_map(|d| merged_docs.iter().position(|x| x == d)).min().unwrap_or(usize::MAX));
+                ev["srcs"] = json!(srcs);
+            }
+            Ok((searcher, ev))
         }));
         match r {
-            Ok(Ok((s, segs))) => {
-                tracer.emit(json!({"ev": "index", "ix": name, "segs": segs}));
+            Ok(Ok((s, ev))) => {
+                tracer.emit(ev);
                 searchers.push((name.clone(), s, b.body));
             }
             Ok(Err(e)) => {
@@ -699,9 +751,30 @@ fn rand_case(rng: &mut StdRng, tag: Value, avoid: &str, big: bool) -> Value {
             }
         }
     }
+    // which segments are merged afterwards: all of them, a strict subset of 2..4 (merged and unmerged
+    // segments then coexist), or a single one (only purges its deletes)
+    let nseg = cuts.len();
+    let mut merge: Vec<usize> = vec![];
+    if rng.random_range(0..10) < 9 {
+        let r = rng.random_range(0..10);
+        if r == 0 {
+            merge.push(rng.random_range(1..=nseg));
+        } else if r < 5 || nseg <= 2 {
+            merge = (1..=nseg).collect();
+        } else {
+            let k = (*pick(rng, &[2usize, 3, 4])).min(nseg - 1);
+            while merge.len() < k {
+                let x = rng.random_range(1..=nseg);
+                if !merge.contains(&x) {
+                    merge.push(x);
+                }
+            }
+            merge.sort();
+        }
+    }
     let nq = 10;
     let queries: Vec<Value> = (0..nq).map(|_| { let d = rng.random_range(0..4); rand_query(rng, &vocab, d, avoid) }).collect();
-    json!({"tag": tag, "filler": "z", "vocab": vocab, "docs": docs, "cuts": cuts, "dels": dels, "queries": queries, "ks": [1, 3, 1000]})
+    json!({"tag": tag, "filler": "z", "vocab": vocab, "docs": docs, "cuts": cuts, "dels": dels, "merge": merge, "queries": queries, "ks": [1, 3, 1000]})
 }
 
 fn main() {
